@@ -74,10 +74,18 @@ CLAIMED = {
              "list and every psi0; with fillRZ's slices (regenerated from the source as fingerprints) every entry of the four staggered arrays is point ps+2j of "
              "contour cs+2i for ANY sizes, hence lies on the flux surface of its radial index within the refine contract and psi is constant along y within 2 tol. "
              "The recursion model is run against the real followPerpendicular on a closed-form curved field; the psi residual at all four locations, the pinned "
-             "corners and the index map are checked on every corpus grid (incl. non-orthogonal with 2 processes, a psi gauge with an exact-zero limit).",
-        note="Trusted: Coq kernel; hand model + fingerprints; the refine contract (convergence of refinePoint/solve_ivp) is monitored on real grids, not proved; "
-             "corpus = analytic Gaussian families + circular (no TORPEX X-point case: needs sympy).",
-        category="proof", technique="Coq proof (list induction) on a hand model + source fingerprints + grid oracle", design="6/C01"),
+             "corners and the index map are checked on every corpus grid (incl. non-orthogonal with 2 processes, a psi gauge with an exact-zero limit). "
+             "The REFINEMENT is modelled too (Model_Refine.v over an arithmetic signature): for ANY flux function a point returned by refinePointNewton has "
+             "|psi - psival| < atol, or < atol*|psival| when accepted unchanged; the loop ends after at most 12 iterations in any arithmetic (incl. nan/inf); "
+             "refinePoint returns the first non-raising method's result and raises exactly when all raise; getRefined with tolerance-respecting methods gives "
+             "a contour of the same length every point of which is within the tolerance; with the DEFAULT methods the only untested path is the raw "
+             "'integrate' fallback (identified by theorem, monitored); skip_endpoints keeps exactly the two end points. The PrimFloat instance of the same "
+             "model is run BIT FOR BIT against the real refinePointNewton / refinePoint / getRefined on polynomial flux functions (converging, touching "
+             "= 6-16 iterations around the limit, diverging, early-exit cases; scripted integrate / line outcomes).",
+        note="Trusted: Coq kernel (+ Reals axioms for the real-number instance of the refinement theorems); hand models + fingerprints + bit-exact correspondence; "
+             "solve_ivp ('integrate') and brentq ('line') are parameters of the model: contracts monitored on real grids (psi residual of every point), not proved; "
+             "convergence of the iteration is not claimed; corpus = analytic Gaussian families + circular (no TORPEX X-point case: needs sympy).",
+        category="proof", technique="Coq proof (list induction; generic-arithmetic loop invariant) on hand models + source fingerprints + bit-exact PrimFloat correspondence + grid oracle", design="6/C01"),
     "C04": dict(
         text="Coq theorems (axiom-free): for every strictly monotone psi_vals, inside or outside the separatrix, the points MeshRegion computes for one skeleton "
              "point are the flow points in the order of psi_vals, and after transposition and slicing all points sharing a poloidal index lie on ONE integral "
